@@ -859,6 +859,14 @@ class ListOp(Op):
             # result must have no duplicates, exactly the built-in result's
             # elements, and keep the relative order of the other elements.
             final = _resolve_dups(L, live, w, op, owner)
+            if meth in ("insert", "append", "extend", "iadd") and partial is None:
+                # pure insertions: the node is MOVED to where it was inserted - either the
+                # built-in result with the stale occurrence dropped, or the operation applied
+                # after the node left its old place
+                keep_new = _dedup_keep_last(L) if meth != "insert" else _dedup_keep_new_insert(L0, args)
+                moved = _apply_after_removal(L0, meth, args, items)
+                if live not in (keep_new, moved):
+                    w.violate(owner, "list:moved_to_wrong_place", "after %r on %r: list %r; a moved node belongs where it was inserted: %r or %r" % (op, L0, live, keep_new, moved))
         # write back with move semantics
         newset, oldset = set(final), set(L0)
         for x in oldset - newset:
@@ -873,6 +881,30 @@ class ListOp(Op):
                 n.parent = I
         m.nodes[I].a["modules"] = list(final)
         return exp
+
+
+def _dedup_keep_new_insert(L0, args):
+    i, x = args[0], args[1]
+    L = list(L0)
+    L.insert(i, x)
+    # position of the new occurrence as list.insert computed it
+    n = len(L0)
+    pos = max(0, n + i) if i < 0 else min(i, n)
+    return [y for k, y in enumerate(L) if y != x or k == pos]
+
+
+def _apply_after_removal(L0, meth, args, items):
+    if meth == "insert":
+        L = [y for y in L0 if y != args[1]]
+        L.insert(args[0], args[1])
+        return L
+    new = [args[0]] if meth == "append" else list(items(args[0]))
+    L = [y for y in L0 if y not in new]
+    for y in new:
+        if y in L:
+            L.remove(y)
+        L.append(y)
+    return L
 
 
 def _dedup_keep_last(L):
